@@ -1,5 +1,7 @@
-(* Extraction unit of C18: encoding detection and the decode loop over the toy UTF-16LE decoder. *)
+(* Extraction unit of C18: encoding detection, the decode loop over the toy UTF-16LE decoder, the decode model
+   over the UTF-8 / UTF-16 decoder models (with the callback left to the driver) and the one-shot
+   specification. *)
 From Coq Require Import List NArith Bool.
 From Coq Require Import ExtrOcamlBasic.
-Require Import Consts Decode.
-Extraction "model.ml" choose_encoding toy_run.
+Require Import Consts Decode TagSpec EncodingSpec Decoders.
+Extraction "model.ml" choose_encoding toy_run decode_model decode_spec reserve text_len.
